@@ -389,7 +389,7 @@ class SNum(Sc):
             return SInt(int_floordiv(a, b))
         if ctx.div_safety and not z3.is_rational_value(b):
             safety('div', SBool(b != 0))
-        return SReal(z3.ToReal(z3.ToInt(a / b)))
+        return SReal(z3.ToReal(sfloor(SReal(a / b)).z))
 
     def __floordiv__(self, o): return self._bin(o, self._fdiv)
     def __rfloordiv__(self, o): return self._bin(o, self._fdiv, True)
@@ -397,9 +397,20 @@ class SNum(Sc):
     @staticmethod
     def _mod(a, b, i):
         if i:
+            if z3.is_int_value(b):
+                bv = b.as_long()
+                if bv > 0:
+                    return SInt(a % b)                    # z3 mod = python mod for a positive divisor
+                if bv < 0:
+                    return SInt(-((-a) % z3.IntVal(-bv)))
+                raise ZeroDivisionError('integer modulo by zero')
             q = int_floordiv(a, b)
             return SInt(a - q * b)
-        return SReal(a - b * z3.ToReal(z3.ToInt(a / b)))
+        fa, fb = int_form(a), int_form(b)
+        if fa is not None and fb is not None and fa[1] == 1 and fb[1] == 1 and z3.is_int_value(z3.simplify(fb[0])) \
+                and z3.simplify(fb[0]).as_long() > 0:
+            return SReal(z3.ToReal(fa[0] % z3.simplify(fb[0])))      # integer-valued operands: native mod
+        return SReal(a - b * z3.ToReal(sfloor(SReal(a / b)).z))
 
     def __mod__(self, o): return self._bin(o, self._mod)
     def __rmod__(self, o): return self._bin(o, self._mod, True)
@@ -810,7 +821,21 @@ def ssqrt(x):
             if rn * rn == n and rd * rd == d:
                 return SReal(z3.RealVal(str(fractions.Fraction(rn, rd))))
     ctx.axiom_log.add('sqrt atom: w>=0, w*w=u for u>=0 (A7)')
-    return _atom1(SQRT, 'sqrt', SReal(xz), lambda a, t: [z3.Implies(a >= 0, z3.And(t >= 0, t * t == a))])
+
+    def axioms(a, t):
+        out = [z3.Implies(a >= 0, z3.And(t >= 0, t * t == a))]
+        if isinstance(x, SInt) or (z3.is_app(a) and a.decl().kind() == z3.Z3_OP_TO_REAL):
+            # integer radicand: integer square root r brackets w (derived fact: r = floor(w))
+            u = x.z if isinstance(x, SInt) else a.arg(0)
+            r = z3.Int(ctx.fresh_name('isqrt'))
+            rr = z3.ToReal(r)
+            out.append(z3.Implies(u >= 0, z3.And(r >= 0, r * r <= u, u < (r + 1) * (r + 1), rr <= t, t < rr + 1,
+                                                 (t == rr) == (r * r == u))))
+        return out
+    res = _atom1(SQRT, 'sqrt', SReal(xz), axioms)
+    if isinstance(x, SInt):
+        ctx._vc_seen[('sqrt_int', res.z.get_id())] = (res.z, x.z)
+    return res
 
 
 def sexp(x):
@@ -864,18 +889,257 @@ def sarcsin(x):
                   lambda a, t: [z3.Implies(z3.And(a >= -1, a <= 1), z3.And(SIN(t) == a, COS(t) >= 0, COS(t) * COS(t) + a * a == 1))])
 
 
+def _find_sqrt_atoms(z, out, seen):
+    if z.get_id() in seen:
+        return
+    seen.add(z.get_id())
+    if z3.is_app(z):
+        if z.decl().kind() == z3.Z3_OP_UNINTERPRETED and z.decl().name() == 'u_sqrt':
+            out[z.get_id()] = z
+            return
+        for c in z.children():
+            _find_sqrt_atoms(c, out, seen)
+
+
+def _affine_in_sqrt(z):
+    """if z = alpha*w + beta with w a single sqrt atom and alpha a positive rational: (w, alpha, beta)"""
+    atoms = {}
+    _find_sqrt_atoms(z, atoms, set())
+    if len(atoms) != 1:
+        return None
+    w = list(atoms.values())[0]
+    sub = lambda v: z3.simplify(z3.substitute(z, (w, z3.RealVal(v))))
+    b0, b1, b2 = sub(0), sub(1), sub(2)
+    al = z3.simplify(b1 - b0)
+    if not z3.is_rational_value(al) or al.as_fraction() <= 0:
+        return None
+    lin = z3.simplify(b2 - b0 - 2 * al)
+    if not (z3.is_rational_value(lin) and lin.as_fraction() == 0):
+        return None
+    return w, al, b0
+
+
+def _round_sqrt_lemma(xz, res, kind):
+    """derived facts for c = ceil(alpha*sqrt(u) + beta) / f = floor(...): the bracketing squared (monotonicity of
+    squaring on non-negative reals).  When u is an integer term and 1/alpha, beta/alpha are integers the facts are
+    stated in pure integer arithmetic."""
+    aff = _affine_in_sqrt(xz)
+    if aff is None:
+        return
+    w, al, be = aff
+    u = w.arg(0)
+    ia = 1 / al.as_fraction()
+    uint = u.arg(0) if (z3.is_app(u) and u.decl().kind() == z3.Z3_OP_TO_REAL) else None
+    hit = ctx._vc_seen.get(('sqrt_int', w.get_id()))
+    if hit is not None:
+        uint = hit[1]
+    bi = None
+    if z3.is_rational_value(be):
+        bi = be.as_fraction() * ia
+    if uint is not None and ia.denominator == 1 and bi is not None and bi.denominator == 1:
+        ia_, bi_ = int(ia), int(bi)
+        # (r - be)/al = ia*r - bi
+        if kind == 'ceil':
+            L = ia_ * (res - 1) - bi_
+            U = ia_ * res - bi_
+            ctx.add(z3.Implies(uint >= 0, z3.And(U >= 0, uint <= U * U, z3.Implies(L >= 0, uint > L * L))))
+
+            def inst(t, res=res, uint=uint):
+                # exact characterisation at an integer hint t:  ceil(al*w+be) <= t  <=>  w <= (t-be)/al
+                if not isinstance(t, SInt):
+                    return z3.BoolVal(True)
+                Ut = ia_ * t.z - bi_
+                return z3.Implies(uint >= 0, (res <= t.z) == z3.And(Ut >= 0, uint <= Ut * Ut))
+        else:
+            L = ia_ * res - bi_
+            U = ia_ * (res + 1) - bi_
+            ctx.add(z3.Implies(uint >= 0, z3.And(U > 0, uint < U * U, z3.Implies(L >= 0, L * L <= uint))))
+
+            def inst(t, res=res, uint=uint):
+                if not isinstance(t, SInt):
+                    return z3.BoolVal(True)
+                Lt = ia_ * t.z - bi_
+                return z3.Implies(uint >= 0, (res >= t.z) == z3.Or(Lt <= 0, Lt * Lt <= uint))
+        ctx.add_forall(inst)
+    else:
+        r = z3.ToReal(res)
+        if kind == 'ceil':      # r-1 < al*w+be <= r
+            L = (r - 1 - be) / al
+            U = (r - be) / al
+            ctx.add(z3.Implies(u >= 0, z3.And(U >= 0, u <= U * U, z3.Implies(L >= 0, u > L * L))))
+        else:                   # r <= al*w+be < r+1
+            L = (r - be) / al
+            U = (r + 1 - be) / al
+            ctx.add(z3.Implies(u >= 0, z3.And(U > 0, u < U * U, z3.Implies(L >= 0, L * L <= u))))
+    ctx.axiom_log.add('derived: floor/ceil of an affine function of sqrt(u) bracket u between squares (monotone squaring)')
+
+
+def int_form_struct(xz, _memo=None):
+    """(I, D): xz == ToReal(I)/D with I an Int term and D a positive int, when xz is built from to_real of
+    integer terms, rational constants, + - * and ite (structure preserved, nothing expanded); else None."""
+    memo = {} if _memo is None else _memo
+    k = xz.get_id()
+    if k in memo:
+        return memo[k][1]
+    r = _int_form(xz, memo)
+    memo[k] = (xz, r)
+    return r
+
+
+def _lcm(a, b):
+    return a * b // _math.gcd(a, b)
+
+
+def _int_form(e, memo):
+    if z3.is_rational_value(e):
+        fr = e.as_fraction()
+        return z3.IntVal(fr.numerator), fr.denominator
+    if z3.is_int_value(e):
+        return e, 1
+    if not z3.is_app(e):
+        return None
+    k = e.decl().kind()
+    ch = e.children()
+    if k == z3.Z3_OP_TO_REAL:
+        return ch[0], 1
+    if e.sort().kind() == z3.Z3_INT_SORT:
+        return e, 1
+    if k in (z3.Z3_OP_ADD, z3.Z3_OP_SUB):
+        fs = [int_form_struct(c, memo) for c in ch]
+        if any(f is None for f in fs):
+            return None
+        D = 1
+        for _, d in fs:
+            D = _lcm(D, d)
+        terms = [i * z3.IntVal(D // d) if D // d != 1 else i for i, d in fs]
+        if k == z3.Z3_OP_ADD:
+            return z3.Sum(*terms), D
+        r = terms[0]
+        for t in terms[1:]:
+            r = r - t
+        return r, D
+    if k == z3.Z3_OP_UMINUS:
+        f = int_form_struct(ch[0], memo)
+        return None if f is None else (-f[0], f[1])
+    if k == z3.Z3_OP_MUL:
+        fs = [int_form_struct(c, memo) for c in ch]
+        if any(f is None for f in fs):
+            return None
+        D = 1
+        I = None
+        for i, d in fs:
+            D *= d
+            I = i if I is None else I * i
+        return I, D
+    if k == z3.Z3_OP_DIV:
+        den = ch[1]
+        if z3.is_rational_value(den) and den.as_fraction() != 0:
+            f = int_form_struct(ch[0], memo)
+            if f is None:
+                return None
+            fr = den.as_fraction()
+            # (I/D) / (p/q) = I*q / (D*p)
+            num, dd = f[0] * z3.IntVal(fr.denominator), f[1] * fr.numerator
+            if dd < 0:
+                num, dd = -num, -dd
+            return num, dd
+        return None
+    if k == z3.Z3_OP_ITE:
+        a, b = int_form_struct(ch[1], memo), int_form_struct(ch[2], memo)
+        if a is None or b is None:
+            return None
+        D = _lcm(a[1], b[1])
+        return z3.If(ch[0], a[0] * z3.IntVal(D // a[1]) if D // a[1] != 1 else a[0],
+                     b[0] * z3.IntVal(D // b[1]) if D // b[1] != 1 else b[0]), D
+    if k == z3.Z3_OP_POWER and z3.is_rational_value(ch[1]) and ch[1].as_fraction().denominator == 1 \
+            and 0 <= ch[1].as_fraction().numerator <= 8:
+        f = int_form_struct(ch[0], memo)
+        if f is None:
+            return None
+        n = int(ch[1].as_fraction())
+        I, D = z3.IntVal(1), 1
+        for _ in range(n):
+            I, D = I * f[0], D * f[1]
+        return I, D
+    return None
+
+
+def int_form(xz):
+    """(I, D): xz == ToReal(I)/D, I an Int polynomial (expanded, sum of monomials) in integer-sorted atoms."""
+    from . import pit
+    try:
+        cv = pit.FConv()
+        rf = cv.conv(xz)
+    except (pit.NotPoly, RecursionError):
+        return None
+    if rf.d:
+        return None
+    for t in cv.terms:
+        if t.sort().kind() != z3.Z3_INT_SORT:
+            return None
+    D = 1
+    for c in rf.n.t.values():
+        D = D * c.denominator // _math.gcd(D, c.denominator)
+    terms = []
+    for mono, c in sorted(rf.n.t.items()):
+        k = int(c * D)
+        fac = [z3.IntVal(k)] if k != 1 or not mono else []
+        for v, e in mono:
+            fac += [cv.terms[v]] * e
+        terms.append(fac[0] if len(fac) == 1 else z3.Product(*fac))
+    I = z3.IntVal(0) if not terms else (terms[0] if len(terms) == 1 else z3.Sum(*terms))
+    return z3.simplify(I), D
+
+
+def _named_round(x, kind):
+    xz0 = z3.simplify(x.z)
+    fi = int_form(xz0)
+    if fi is not None:
+        I, D = fi
+        if D == 1:
+            return SInt(I)
+        if kind == 'floor':
+            return SInt(I / z3.IntVal(D))
+        return SInt(-((-I) / z3.IntVal(D)))
+    return _named_round0(x, kind)
+
+
+def _named_round0(x, kind):
+    """floor/ceil as a named integer with its defining bracket (avoids to_int terms in the VCs)"""
+    xz = z3.simplify(x.z)
+    key = (kind, xz.get_id())
+    hit = ctx._vc_seen.get(key)
+    if hit is not None:
+        return SInt(hit[1])
+    r = z3.Int(ctx.fresh_name(kind))
+    rr = z3.ToReal(r)
+    if kind == 'floor':
+        ctx.add(z3.And(rr <= xz, xz < rr + 1))
+    else:
+        ctx.add(z3.And(rr - 1 < xz, xz <= rr))
+    ctx._vc_seen[key] = (xz, r)
+    _round_sqrt_lemma(xz, r, kind)
+    return SInt(r)
+
+
 def sfloor(x):
     x = lift(x)
     if isinstance(x, SInt):
         return x
-    return SInt(z3.ToInt(x.z))
+    z = z3.simplify(x.z)
+    if z3.is_rational_value(z):
+        return SInt(z3.IntVal(_math.floor(z.as_fraction())))
+    return _named_round(x, 'floor')
 
 
 def sceil(x):
     x = lift(x)
     if isinstance(x, SInt):
         return x
-    return SInt(-z3.ToInt(-x.z))
+    z = z3.simplify(x.z)
+    if z3.is_rational_value(z):
+        return SInt(z3.IntVal(_math.ceil(z.as_fraction())))
+    return _named_round(x, 'ceil')
 
 
 def strunc(x):
@@ -885,7 +1149,14 @@ def strunc(x):
     if isinstance(x, SBool):
         return x.asint()
     z = x.z
-    return SInt(z3.If(z >= 0, z3.ToInt(z), -z3.ToInt(-z)))
+    zs = z3.simplify(z)
+    if z3.is_app(zs) and zs.decl().kind() == z3.Z3_OP_TO_REAL:
+        return SInt(zs.arg(0))           # int(float(k)) = k
+    fi = int_form(z)
+    if fi is not None and fi[1] == 1:
+        return SInt(fi[0])
+    f, c = sfloor(x), sceil(x)
+    return SInt(z3.If(z >= 0, f.z, c.z))
 
 
 def ite(c, a, b):
@@ -1264,6 +1535,19 @@ def check(name, cond, safety=False):
             pass
     if r is None:
         r = s.check()
+    if r == z3.unknown and _pure_int(cz):
+        # integer projection: keep only the hypotheses that are pure integer arithmetic (dropping hypotheses is
+        # sound for unsat); mixed real/UF clutter otherwise keeps z3 away from its integer procedures
+        s1 = z3.Solver()
+        s1.set('timeout', min(ctx.vc_timeout_ms, 8000))
+        for p_ in ctx.pc:
+            for c_ in _flat_and(p_):
+                if _pure_int(c_):
+                    s1.add(c_)
+        s1.add(z3.Not(cz))
+        if s1.check() == z3.unsat:
+            r = z3.unsat
+            backend = 'z3-int'
     if r == z3.unknown:
         # polynomial-identity back end, then z3 again on the Ackermannised formula with the full budget
         from . import pit
@@ -1328,6 +1612,55 @@ def _looks_nonlinear(z, limit=20000):
                 return True
             stack.extend(t.children())
     return False
+
+
+def _flat_and(e):
+    if z3.is_and(e):
+        out = []
+        for c in e.children():
+            out += _flat_and(c)
+        return out
+    if z3.is_implies(e) and entails_cheap(e.arg(0)):
+        return _flat_and(e.arg(1))
+    if z3.is_or(e) and e.num_args() == 2:
+        a, b = e.arg(0), e.arg(1)
+        if z3.is_not(a) and entails_cheap(a.arg(0)):
+            return _flat_and(b)
+        if z3.is_not(b) and entails_cheap(b.arg(0)):
+            return _flat_and(a)
+    return [e]
+
+
+def entails_cheap(f):
+    k = ('ent', f.get_id())
+    hit = ctx._vc_seen.get(k)
+    if hit is not None:
+        return hit[1]
+    r = entails(f)
+    ctx._vc_seen[k] = (f, r)
+    return r
+
+
+def _pure_int(e, limit=5000):
+    """no Real-sorted subterm and no uninterpreted function application"""
+    seen = set()
+    stack = [e]
+    n = 0
+    while stack:
+        t = stack.pop()
+        if t.get_id() in seen:
+            continue
+        seen.add(t.get_id())
+        n += 1
+        if n > limit:
+            return False
+        if t.sort().kind() == z3.Z3_REAL_SORT:
+            return False
+        if z3.is_app(t):
+            if t.decl().kind() == z3.Z3_OP_UNINTERPRETED and t.num_args() > 0:
+                return False
+            stack.extend(t.children())
+    return True
 
 
 def entails(f):
